@@ -101,6 +101,8 @@ structure ASim (s₁ s₂ : St) : Prop where
   bne : P.hb → ∃ c cs, s₁.groups[P.bx]? = some (.block (c :: cs))
   wf : ∀ (j : Nat) (g : Grp), s₁.groups[j]? = some g →
     (∀ i ∈ gnodes g, i < s₁.nodes.size) ∧ (∀ x ∈ grefs g, x < s₁.groups.size)
+  /-- the exit identifier a router node carries without using it was drawn from the counter too -/
+  dex : ∀ (i : Nat) (n : NodeM), s₁.nodes[i]? = some n → Below s₁.next n.dexitUid ∨ ¬ Invented n.dexitUid
   nodes : ∀ i n, P.DN i → s₁.nodes[i]? = some n → s₂.nodes[P.ν i]? = some (rnNode P.ρ n)
   groups : ∀ j g, P.DG j → s₁.groups[j]? = some g → s₂.groups[P.γ j]? = some (mapGrpAt P j g)
   closed : ∀ j g, P.DG j → s₁.groups[j]? = some g → (∀ i ∈ gnodes g, P.DN i) ∧ (∀ x ∈ grefs g, P.DG x)
@@ -117,10 +119,14 @@ theorem ASim.idSync {s₁ s₂ : St} (h : ASim P s₁ s₂) : IdSync P.ρ s₁ s
 
 theorem ASim.bumps {s₁ s₂ t₁ t₂ : St} (h : ASim P s₁ s₂) (hb : Bumps s₁ t₁ s₂ t₂) : ASim P t₁ t₂ := by
   obtain ⟨k, rfl, rfl⟩ := hb
-  refine { h with idsync := ?_ }
-  intro j
-  have := h.idsync (k + j)
-  simpa [Nat.add_assoc] using this
+  refine { h with idsync := ?_, dex := ?_ }
+  · intro j
+    have := h.idsync (k + j)
+    simpa [Nat.add_assoc] using this
+  · intro i n hn
+    rcases h.dex i n hn with hh | hh
+    · exact .inl (hh.mono (Nat.le_add_right _ _))
+    · exact .inr hh
 
 theorem ASim.node_lt {s₁ s₂ : St} (h : ASim P s₁ s₂) {i : Nat} {n : NodeM} (hd : P.DN i)
     (hn : s₁.nodes[i]? = some n) : P.ν i < s₂.nodes.size :=
@@ -132,17 +138,29 @@ theorem ASim.grp_lt {s₁ s₂ : St} (h : ASim P s₁ s₂) {j : Nat} {g : Grp} 
 
 /-- the same node is overwritten on both sides -/
 theorem ASim.setNode (ok : P.Ok) {s₁ s₂ : St} (h : ASim P s₁ s₂) {i : Nat} {old n' : NodeM}
-    (hd : P.DN i) (ho : s₁.nodes[i]? = some old) :
+    (hd : P.DN i) (ho : s₁.nodes[i]? = some old)
+    (hdx : n'.dexitUid = old.dexitUid ∨ Below s₁.next n'.dexitUid) :
     ASim P { s₁ with nodes := s₁.nodes.setIfInBounds i n' }
       { s₂ with nodes := s₂.nodes.setIfInBounds (P.ν i) (rnNode P.ρ n') } := by
   have hlt : i < s₁.nodes.size := (Array.getElem?_eq_some_iff.mp ho).1
   have hlt2 := h.node_lt hd ho
-  refine { h with nsync := ?_, ndom := ?_, wf := ?_, nodes := ?_, fr1n := ?_, fr2n := ?_ }
+  refine { h with nsync := ?_, ndom := ?_, wf := ?_, dex := ?_, nodes := ?_, fr1n := ?_, fr2n := ?_ }
   · intro k; simpa using h.nsync k
   · intro j hj; exact h.ndom j (by simpa using hj)
   · intro j g hg
     have := h.wf j g hg
     exact ⟨fun i hi => by simpa using this.1 i hi, this.2⟩
+  · intro j m hj
+    simp only [Array.getElem?_setIfInBounds] at hj
+    by_cases hij : i = j
+    · subst hij
+      simp only [hlt, if_true, Option.some.injEq] at hj
+      subst hj
+      rcases hdx with hh | hh
+      · rw [hh]; exact h.dex i old ho
+      · exact .inl hh
+    · simp only [hij, if_false] at hj
+      exact h.dex j m hj
   · intro j m hdj hj
     simp only [Array.getElem?_setIfInBounds] at hj ⊢
     by_cases hij : i = j
@@ -164,10 +182,11 @@ theorem ASim.setNode (ok : P.Ok) {s₁ s₂ : St} (h : ASim P s₁ s₂) {i : Na
     exact h.fr2n j' hj'
 
 /-- a node is created on both sides -/
-theorem ASim.addNode {s₁ s₂ : St} (h : ASim P s₁ s₂) (n : NodeM) :
+theorem ASim.addNode {s₁ s₂ : St} (h : ASim P s₁ s₂) (n : NodeM)
+    (hdx : Below s₁.next n.dexitUid ∨ ¬ Invented n.dexitUid) :
     ASim P { s₁ with nodes := s₁.nodes.push n } { s₂ with nodes := s₂.nodes.push (rnNode P.ρ n) } := by
   have h0 : P.ν s₁.nodes.size = s₂.nodes.size := by simpa using h.nsync 0
-  refine { h with nsync := ?_, ndom := ?_, wf := ?_, nodes := ?_, fr1n := ?_, fr2n := ?_ }
+  refine { h with nsync := ?_, ndom := ?_, wf := ?_, dex := ?_, nodes := ?_, fr1n := ?_, fr2n := ?_ }
   · intro k
     have := h.nsync (1 + k)
     simpa [Nat.add_assoc] using this
@@ -175,6 +194,13 @@ theorem ASim.addNode {s₁ s₂ : St} (h : ASim P s₁ s₂) (n : NodeM) :
   · intro j g hg
     have := h.wf j g hg
     exact ⟨fun i hi => by have := this.1 i hi; simp; omega, this.2⟩
+  · intro j m hj
+    simp only [Array.getElem?_push] at hj
+    by_cases hjs : j = s₁.nodes.size
+    · simp only [hjs, if_true, Option.some.injEq] at hj
+      subst hj; exact hdx
+    · simp only [hjs, if_false] at hj
+      exact h.dex j m hj
   · intro j m hdj hj
     simp only [Array.getElem?_push] at hj ⊢
     by_cases hjs : j = s₁.nodes.size
@@ -327,6 +353,7 @@ theorem ASim.congr {s₁ s₂ t₁ t₂ : St} (h : ASim P s₁ s₂)
   · rw [e2]; exact h.bxlt
   · rw [e2]; exact h.bne
   · rw [e1, e2]; exact h.wf
+  · rw [e1, e3]; exact h.dex
   · rw [e1, f1]; exact h.nodes
   · rw [e2, f2]; exact h.groups
   · rw [e2]; exact h.closed
